@@ -28,6 +28,7 @@ class Cpu:
         self.unpred = False
         self.undef = False
         self.branched = False
+        self.eret = False                 # the operation performed an exception return (CPSR, IT bits included, loaded from an SPSR image)
         self.outcome = None               # None | 'svc' | 'smc' | 'undef' | 'notimpl' ... (set under self.outcome_cond)
         self.unkmask = {}                 # leaf -> mask of bits whose value is architecturally UNKNOWN (not compared)
 
@@ -35,6 +36,7 @@ class Cpu:
     def copy(self):
         c = Cpu(dict(self.st), self.iset, self.instr, self.oplen, self.native_mem)
         c.unpred, c.undef, c.branched, c.outcome, c.unknown = self.unpred, self.undef, self.branched, self.outcome, self.unknown
+        c.eret = self.eret
         c.unkmask = dict(self.unkmask)
         return c
 
@@ -64,7 +66,7 @@ class Cpu:
                 v2 = k.unkmask.get(key, 0)
                 v = v2 if v2 is v else ite(c, v2, v)
             self.unkmask[key] = v
-        for attr in ('unpred', 'undef', 'branched', 'unknown'):
+        for attr in ('unpred', 'undef', 'branched', 'unknown', 'eret'):
             v = getattr(last, attr)
             for c, k in reversed(outs[:-1]):
                 v2 = getattr(k, attr)
@@ -182,6 +184,7 @@ class Cpu:
         """CPSRWriteByInstr(value, '1111', TRUE); Hyp/ThumbEE check; BranchWritePC(new_pc)"""
         from . import psr as PSR
         _, unp, _ = PSR.cpsr_write_by_instr(self.st, new_cpsr, 0b1111, True)
+        self.eret = True
         self.UNPREDICTABLE(unp)
         c = self.cpsr
         self.UNPREDICTABLE(land(bits(c, 4, 0) == ST.HYP, bit(c, 24) == 1, bit(c, 5) == 1))
